@@ -12,7 +12,7 @@ Driver for stream `tokens` (C05).  One op per line, one observation per line.
                                                       COND prefix notation, `.`-separated: T F N A O E S<id> C<id> G H
   transfer neo|gas SRC DST AMT CALLER DK DATA         -> .             DK n|c|o (data null / [hash,method,args] / other)   DATA o | nt DTO|- TILL | pk PUB
                                                                        CALLER = calling contract or - (entry script)
-  vote ACC PUB|- CALLER | register PUB CALLER | unregister PUB CALLER | lock ACC TILL CALLER
+  vote ACC PUB|- CALLER [cb] | register PUB CALLER | unregister PUB CALLER | lock ACC TILL CALLER
   withdraw SRC DST|- CALLER | setgpb GAS CALLER | setregprice P CALLER
   blockacc ACC CALLER | unblockacc ACC CALLER | designate ACC,ACC,..|- CALLER | endcb                                 -> .
   endtx ABORT                                         -> HALT r1 r2 .. | FAULT
@@ -198,7 +198,8 @@ def parseOp : List String → Option Op
   | ["tx", s, sg] => do pure (.txBegin (← s.toNat?) (← parseList parseSigner sg))
   | "transfer" :: t :: src :: dst :: amt :: c :: recv :: data => do
     pure (.transfer (← parseTok t) (← src.toNat?) (← dst.toNat?) (← amt.toInt?) (← optNat c) (← parseDk recv) (← parseData data))
-  | ["vote", a, p, c] => do pure (.vote (← a.toNat?) (← optNat p) (← optNat c))
+  | ["vote", a, p, c] => do pure (.vote (← a.toNat?) (← optNat p) (← optNat c) false)
+  | ["vote", a, p, c, "cb"] => do pure (.vote (← a.toNat?) (← optNat p) (← optNat c) true)
   | ["register", p, c] => do pure (.register (← p.toNat?) (← optNat c))
   | ["unregister", p, c] => do pure (.unregister (← p.toNat?) (← optNat c))
   | ["lock", a, t, c] => do pure (.lock (← a.toNat?) (← t.toNat?) (← optNat c))
